@@ -66,14 +66,48 @@ pub fn attach_for(mailbox: crate::scenes::Mailbox) -> Attach {
 }
 
 pub fn variant_tag() -> &'static str {
+    let v = current_variant();
     if stream_variant() {
         " [stream loop]"
+    } else if v.generous_timeout && v.recreate {
+        " [timeout 50, recreate]"
+    } else if v.generous_timeout {
+        " [timeout 50]"
+    } else if v.recreate {
+        " [recreate]"
     } else {
         ""
     }
 }
 
+/// A configuration that must not change anything the property speaks about, applied on top of
+/// the case's own spawn configuration.
+#[derive(Clone, Copy, Debug, Default, PartialEq, Eq)]
+pub struct Variant {
+    /// configure a handler timeout that no handler comes near (50 ticks, carry on)
+    pub generous_timeout: bool,
+    /// use recreate-from-default where the case would use the default strategy
+    pub recreate: bool,
+}
+
+thread_local! {
+    static VARIANT: std::cell::Cell<Variant> = const { std::cell::Cell::new(Variant { generous_timeout: false, recreate: false }) };
+}
+
+/// Runs a case generator with a neutral-configuration variant switched on (see [`Variant`]).
+pub fn with_variant<T>(v: Variant, f: impl FnOnce() -> T) -> T {
+    VARIANT.with(|c| c.set(v));
+    let r = f();
+    VARIANT.with(|c| c.set(Variant::default()));
+    r
+}
+
+pub fn current_variant() -> Variant {
+    VARIANT.with(|c| c.get())
+}
+
 pub struct ProgScene<X> {
+    pub variant: Variant,
     pub spawn: SpawnCfg,
     pub attach: Attach,
     pub roles: Vec<RoleCfg>,
@@ -92,7 +126,14 @@ impl<X> Scene for ProgScene<X> {
         crate::scenes::STREAM.with(|s| *s.borrow_mut() = None);
         let (mut owning, base) = match &self.attach {
             Attach::None => {
-                let o = spawn_probe(0, self.spawn);
+                let mut spawn = self.spawn;
+                if self.variant.generous_timeout && spawn.timeout.is_none() {
+                    spawn.timeout = Some((50, false));
+                }
+                if self.variant.recreate && spawn.strat == crate::scenes::Strat::Default {
+                    spawn.strat = crate::scenes::Strat::Recreate;
+                }
+                let o = spawn_probe(0, spawn);
                 let b = o.to_addr();
                 (Some(o), b)
             }
